@@ -35,7 +35,8 @@ def make_schema(n, edges):
         if i == n:
             fs.append("elist: [E4!]")
         parts.append(f"input I{i} {{ {' '.join(fs)} }}")
-    parts.append("input IUnused { z: Int eu: EUnused }")
+    parts.append("input IUnused { z: Int eu: EUnused inner: IUnusedInner }")
+    parts.append("input IUnusedInner { w: Int back: IUnused }")
     parts.append("type RN { e3: E3 v: Int }")
     parts.append("type R { id: ID e5: E5 nested: RN }")
     qs = [f"q{i}(a: I{i}): R" for i in range(1, n + 1)]
